@@ -421,7 +421,10 @@ func (txn MapTxn[K, V]) Commit() (m Map[K, V]) {
 		_, kv, _ := iter.Next()
 		m.singleton = &kv
 	default:
-		m.tree = txn.txn.Commit()
+		// Clone instead of committing: Commit() would hand the underlying
+		// transaction to the tree for reuse by the next Tree.Txn() while
+		// this MapTxn may still be used.
+		m.tree = txn.txn.Clone()
 		m.hasTree = true
 	}
 	if m.singleton != nil {
